@@ -17,7 +17,7 @@
      [stv] = the values of the pushes that started (1601) on the side since its last count reset;
    and [late] = some 1606 step retired a side while a push was in flight on it (the pattern of the
    open known finding C16-late-push), [glog] = every completed drain with the ledger and the started
-   list of its side at the moment it read the count (1607).                                                      *)
+   list of its side at the moment it read the count (1607) and the callback's read limit.                                                      *)
 From Coq Require Import List NArith Bool.
 Import ListNotations.
 Require Import MV.Common.Interleave MV.C16.Model.
@@ -32,9 +32,9 @@ Inductive pc :=
 | K5 (k : option N)
 | K6 (k : option N) (up : bool)
 | K7 (k : option N) (up : bool)
-| K8 (sd : bool) (n len take i : N) (acc : list N) (W St : list N)
-| K9 (sd : bool) (n len : N) (acc : list N) (W St : list N)
-| K10 (d : drained) (W St : list N)
+| K8 (k : option N) (sd : bool) (n len take i : N) (acc : list N) (W St : list N)
+| K9 (k : option N) (sd : bool) (n len : N) (acc : list N) (W St : list N)
+| K10 (k : option N) (d : drained) (W St : list N)
 | E11
 | E12 (up : bool)
 | Done.
@@ -42,7 +42,7 @@ Inductive pc :=
 Record local := { me : N; pcl : pc; todo : list op; results : list mout (* newest first *) }.
 Record sidest := { res : reservoir; led : list N; fl : list N; stv : list N }.
 Record shared := { sp : sidest; ss : sidest; usep : bool; lock : option N;
-                   late : bool; glog : list (drained * list N * list N) }.
+                   late : bool; glog : list (drained * list N * list N * option N) }.
 
 Definition side (s : shared) (sd : bool) : sidest := if sd then sp s else ss s.
 Definition set_side (s : shared) (sd : bool) (x : sidest) : shared :=
@@ -99,16 +99,16 @@ Definition step (s : shared) (l : local) : option (shared * local) :=
       let n := count r in
       let len := if capacity r <? n then capacity r else n in
       let take := match k with None => len | Some k' => N.min k' len end in
-      Some (s, goto l (if take =? 0 then K9 up n len [] (led x) (stv x) else K8 up n len take 0 [] (led x) (stv x)))
-  | K8 sd n len take i acc W St =>
+      Some (s, goto l (if take =? 0 then K9 k up n len [] (led x) (stv x) else K8 k up n len take 0 [] (led x) (stv x)))
+  | K8 k sd n len take i acc W St =>
       let acc' := acc ++ [nth (N.to_nat i) (values (res (side s sd))) 0] in
-      Some (s, goto l (if i + 1 <? take then K8 sd n len take (i + 1) acc' W St else K9 sd n len acc' W St))
-  | K9 sd n len acc W St =>
+      Some (s, goto l (if i + 1 <? take then K8 k sd n len take (i + 1) acc' W St else K9 k sd n len acc' W St))
+  | K9 k sd n len acc W St =>
       let x := side s sd in let r := res x in
       Some (set_side s sd {| res := {| values := values r; count := 0 |}; led := []; fl := fl x; stv := [] |},
-            goto l (K10 {| d_vals := acc; d_len := len; d_unsampled := n |} W St))
-  | K10 d W St =>
-      Some ({| sp := sp s; ss := ss s; usep := usep s; lock := None; late := late s; glog := (d, W, St) :: glog s |},
+            goto l (K10 k {| d_vals := acc; d_len := len; d_unsampled := n |} W St))
+  | K10 k d W St =>
+      Some ({| sp := sp s; ss := ss s; usep := usep s; lock := None; late := late s; glog := (d, W, St, k) :: glog s |},
             finish l (MConsume d))
   | E11 => Some (s, goto l (E12 (usep s)))
   | E12 up => Some (s, finish l (MEmpty (count (res (side s up)) =? 0)))
@@ -118,8 +118,8 @@ Definition step (s : shared) (l : local) : option (shared * local) :=
 Definition site (l : local) : N :=
   match pcl l with
   | Start => 0 | P1 _ _ => 1601 | P2 _ _ _ => 1602 | P3 _ _ _ _ => 1603
-  | K4 _ => 1604 | K5 _ => 1605 | K6 _ _ => 1606 | K7 _ _ => 1607 | K8 _ _ _ _ _ _ _ _ => 1608
-  | K9 _ _ _ _ _ _ => 1609 | K10 _ _ _ => 1610 | E11 => 1611 | E12 _ => 1612 | Done => 0
+  | K4 _ => 1604 | K5 _ => 1605 | K6 _ _ => 1606 | K7 _ _ => 1607 | K8 _ _ _ _ _ _ _ _ _ => 1608
+  | K9 _ _ _ _ _ _ _ => 1609 | K10 _ _ _ _ => 1610 | E11 => 1611 | E12 _ => 1612 | Done => 0
   end.
 
 Definition side0 (cap : nat) : sidest := {| res := with_capacity cap; led := []; fl := []; stv := [] |}.
